@@ -309,3 +309,18 @@ Fixpoint derived_run (mfix : bool) (w : world) (evs : list event) : bool :=
       derivedb w e &&
       match step mfix w e with Some (w', _) => derived_run mfix w' evs' | None => true end
   end.
+
+(* ---------- WatchDeliver (liveness of the snapshot watcher) ---------- *)
+(* EtcdStore.watchSnapshot calls refreshSnapshot for every watch response. The model
+   has no clock, so liveness is a NAMED ASSUMPTION about the watcher, checked on the
+   real watchSnapshot goroutines by the C21_watch harness: every write of the
+   snapshot key is eventually followed by a BRefresh of every live broker.  Its
+   consequence at quiescence (no further writes) is that the refreshes of all
+   brokers have run after the last write: *)
+Definition deliver_all (brokers : nat) : list event := map BRefresh (seq 0 brokers).
+
+Definition quiesced (w : world) : Prop :=
+  match w_etcd w with
+  | Some s => forall b loc, nth_error (w_local w) b = Some loc -> loc = s
+  | None => True
+  end.
